@@ -41,8 +41,8 @@ ATTS = {'level': (0.0, 0.0), 'tilt1': (40.0, -60.0), 'tilt2': (-120.0, 80.0)}
 def gen_cases(tier, seed):
     ph = seed % 8
     if tier == 'quick':
-        lats, speeds, courses = (-80.0, 0.0, 50.0), (0.0, 300.0), (45.0 + ph, 200.0)
-        alts, atts, vds, taus = (0.0, 20000.0), ('level', 'tilt1'), (0.0, 5.0), (0.5,)
+        lats, speeds, courses = (-80.0, -35.0, 0.0, 50.0), (0.0, 30.0, 300.0), (45.0 + ph, 200.0)
+        alts, atts, vds, taus = (0.0, 20000.0), tuple(ATTS), (0.0, 5.0), (0.5,)
     else:
         lats, speeds, courses = (-80.0, -35.0, 0.0, 50.0, 80.0), (0.0, 30.0, 300.0), (45.0 + ph, 200.0)
         alts, atts, vds, taus = (0.0, 20000.0), tuple(ATTS), (0.0, 5.0), (0.25, 0.5)
